@@ -61,9 +61,10 @@ type Input struct {
 func init() {
 	fw.Register(&fw.Prop{
 		ID: "C02",
-		Rule: "inputs: generated HTML documents (Ahem / WeasyPrint test font) whose words are unique tokens, with the generator-side expected character sequence of every flow; " +
+		Rule: "inputs: generated HTML documents (Ahem / WeasyPrint test font, pango engine and 5 % go-text) whose words are unique tokens, with the generator-side expected character sequence of every flow, marker text of every list item, and multiplicity rule of every repeated box; " +
+			"families: paged (page content box 1-40 lines high, 3-60 em wide: paragraphs, nested blocks, lists, tables with split cells, inline boxes, inline-blocks, forced/avoided breaks, orphans/widows, box-decoration-break, bounded floats / absolute boxes / fixed boxes / header groups / running elements) and tall (floats, absolute boxes, tables with header and footer groups anywhere; pages separated by forced breaks only); " +
 			"a case is non-trivial when the document was laid out on >= 2 pages and at least one flow has text on more than one page (a fragmentation really happened), " +
-			"or when it is a single-page document with at least one sub-flow (float / absolutely positioned / table cell) or a line broken inside a paragraph; distinct = distinct input.",
+			"or when it is a single-page document with at least one sub-flow (float / absolutely positioned / table cell) or a block broken into several lines; distinct = distinct input.",
 		N:     numCases,
 		Gen:   func(r *rand.Rand, i int, tier string) any { return Generate(r, i, tier) },
 		Check: Check,
@@ -75,10 +76,12 @@ func init() {
 		},
 		CounterFloors: counterFloors,
 		Assumptions: []string{
-			"flows are identified in the laid-out tree through the id attribute of the flow root element (box.Element), not through the text",
-			"the expected character sequences come from the generator that wrote the HTML (no HTML parser in the oracle); white space is ignored",
-			"DrawText calls are matched to TextBoxes by page, text and origin (PositionX, PositionY+Baseline); with the go-text engine webrender emits empty DrawText calls, so only their number per page is compared",
-			"excluded by construction: text-transform, hyphens, soft hyphens, text-overflow, block-ellipsis, max-lines, continue, generated content other than list markers, ::first-letter, bidi, columns, flex, grid, footnotes, explicit block sizes; floats and absolutely positioned boxes only where they cannot reach a page bottom (known findings)",
+			"flows are identified in the laid-out tree through the id attribute of the flow root element (box.Element), not through the text; white space is ignored",
+			"the expected character sequences come from the generator that wrote the HTML (no HTML parser in the oracle); the generator only emits nestings that the HTML parser keeps as written",
+			"DrawText calls are matched to TextBoxes by page, text (white space ignored) and origin (PositionX, PositionY+Baseline); with the go-text engine webrender emits empty DrawText calls, so only their number per page is compared",
+			"header / footer groups: CSS lets the user agent repeat them or not; required: complete wherever laid out, at most once per page fragment of their table, at least once overall; once on every fragment only where no space constraint exists (tall documents)",
+			"a render that panics or stalls is C01's verdict: inconclusive here (go-text: skipped)",
+			"excluded by construction: text-transform, hyphens, soft hyphens, text-overflow, block-ellipsis, max-lines, continue, generated content other than list markers, ::first-letter, bidi, columns, flex, grid, footnotes, explicit block sizes of boxes with content; and the feature combinations of the open findings (notes/C02.md): out-of-flow boxes that can reach a page bottom or hold a forced break, floats inside inline boxes, fixed / running boxes in content that can be pushed to the next page, header groups that may never fit, empty first row group, preserved white space with go-text",
 		},
 		Batch: 50,
 	})
